@@ -1,5 +1,7 @@
 """C34 native side: calendar / string / float behaviour of the real helpers over enumerated and random instants (bounded)."""
 import datetime
+import math
+from fractions import Fraction
 import os
 import random
 import sys
@@ -77,7 +79,7 @@ def calendar_and_strings(tier, seed):
     epoch = datetime.datetime(1970, 1, 1)
     for _ in range(20000 if tier == 'quick' else 200000):
         n += 1
-        us = rng.randrange(0, ((1 << 60) - 0x01b21dd213814000) // 10)          # every instant a 60-bit uuid timestamp can hold (up to the year 5236)
+        us = rng.randrange(0, ((1 << 60) - 0x01b21dd213814000) // 10) if rng.random() < 0.5 else rng.randrange(0, (1 << 31) * 10 ** 6)     # every instant a 60-bit uuid timestamp can hold (up to the year 5236); half of them before 2038
         dt = epoch + datetime.timedelta(microseconds=us)
         node, cs = rng.getrandbits(48), rng.getrandbits(14)
         u = uuid_from_time(dt, node, cs)
@@ -86,6 +88,12 @@ def calendar_and_strings(tier, seed):
             continue
         if datetime_from_uuid1(u) != dt:
             fails.append('datetime_from_uuid1(uuid_from_time(%r)) is %r' % (dt, datetime_from_uuid1(u)))
+        # the float decode: as close to the instant as binary64 seconds allow (within 2 units in the last place of the exact quotient everywhere; within half a
+        # microsecond while the second count is below 2^31, where a double still separates microseconds with margin)
+        secs = unix_time_from_uuid1(u)
+        exact = us / 10 ** 6                 # int / int: correctly rounded
+        if abs(secs - exact) > 2 * math.ulp(exact) or (us < (1 << 31) * 10 ** 6 and abs(Fraction(secs) - Fraction(us, 10 ** 6)) >= Fraction(1, 2 * 10 ** 6)):
+            fails.append('unix_time_from_uuid1(uuid_from_time(%r)) = %r, the instant is %r s' % (dt, secs, exact))
         lo, hi = min_uuid_from_time(dt), max_uuid_from_time(dt)
         if not (cass_cmp_key(lo) <= cass_cmp_key(u) <= cass_cmp_key(hi)):
             fails.append('uuid %s of %r is outside [min %s, max %s] in Cassandra order' % (u, dt, lo, hi))
